@@ -22,7 +22,7 @@ Cases == [bounds : {"EXTERIOR", "ADIABATIC"}, tilt : {"TOP", "SIDE", "BOTTOM"}, 
    \* being adiabatic (the exposed perimeter depends on both)
    \cup [bounds : {"GROUND"}, tilt : {"TOP", "SIDE", "BOTTOM"}, stack : DOMAIN Stacks_, this : {"C", "U"}, next : {"none", "C", "U"},
          \* (over: the space also owns a floor over outside air, beside the slab: the ground formulas speak of the slab alone)
-         vent : {"none"}, depth : {0, 50, 150, 300, 400}, perim : BOOLEAN, glazed : {FALSE}, over : BOOLEAN]
+         vent : {"none"}, depth : {-100, 0, 50, 150, 300, 400}, perim : BOOLEAN, glazed : {FALSE}, over : BOOLEAN]
 WinCases == [ff : {0, 10, 20, 50, 100}, du : {0, 10, 25, 50}, ug : {60, 110, 320, 570}, uf : {60, 110, 320, 570}, g : {0, 30, 60, 85, 100},
              gsh : {-1, 0, 10, 45, 100}, glass : {"ok", "nil", "dangling"}, frame : {"ok", "nil", "dangling"}]
 NoCase == [bounds |-> "-"]
